@@ -120,3 +120,74 @@ def sweep(res, envdesc, cases, prop, jobs=8, check_ast_iter=True, expect_valid=F
                 pass
             else:
                 res.infra.append(f"oracle reply {rep[:80]!r}")
+
+
+# ---------------------------------------------------------------------------------------------
+# shrinking a failing (query, document) case
+
+
+def _doc_candidates(doc):
+    """smaller documents: drop one element/member, replace one subtree by null or by one of its children"""
+    out = []
+
+    def rec(v, rebuild):
+        if isinstance(v, list):
+            for i in range(len(v)):
+                out.append(rebuild(v[:i] + v[i + 1 :]))
+                rec(v[i], lambda x, i=i, v=v: rebuild(v[:i] + [x] + v[i + 1 :]))
+        elif isinstance(v, dict):
+            keys = list(v.keys())
+            for k in keys:
+                out.append(rebuild({kk: vv for kk, vv in v.items() if kk != k}))
+                rec(v[k], lambda x, k=k, v=v: rebuild({kk: (x if kk == k else vv) for kk, vv in v.items()}))
+        if isinstance(v, (list, dict)) and v:
+            for child in (v if isinstance(v, list) else v.values()):
+                out.append(rebuild(child))
+        if v not in (None, 0, ""):
+            if isinstance(v, (list, dict)) and not v:
+                return
+            out.append(rebuild(None if not isinstance(v, (int, float)) or isinstance(v, bool) else 0))
+
+    rec(doc, lambda x: x)
+    return out
+
+
+def _query_candidates(q):
+    out = []
+    n = len(q)
+    for size in (8, 4, 2, 1):
+        if size >= n:
+            continue
+        for i in range(1, n - size + 1, max(1, size // 2)):
+            out.append(q[:i] + q[i + size :])
+    return out
+
+
+def shrink(envdesc, q, doc, prop, rounds=6, per_round=80):
+    """greedy delta debugging: keep any smaller (query, document) on which a violation is still reported"""
+    import framework as fw
+
+    best = (q, doc)
+    for _ in range(rounds):
+        cands = [(best[0], d) for d in _doc_candidates(best[1])][:per_round]
+        cands += [(qq, best[1]) for qq in _query_candidates(best[0])][: per_round // 2]
+        if not cands:
+            break
+        res = fw.CheckResult()
+        try:
+            sweep(res, envdesc, cands, prop, check_ast_iter=False)
+        except Exception:  # noqa: BLE001
+            break
+        failing = {(v["query"], json.dumps(v["document"], sort_keys=True, default=str)) for v in res.violations
+                   if v.get("what", "").startswith(("find() differs", "evaluation of a valid", "a valid query", "a query outside"))}
+        nxt = None
+        for c in cands:
+            key = (c[0], json.dumps(c[1], sort_keys=True, default=str))
+            if key in failing:
+                size = len(c[0]) + len(json.dumps(c[1], default=str))
+                if nxt is None or size < nxt[0]:
+                    nxt = (size, c)
+        if nxt is None or nxt[0] >= len(best[0]) + len(json.dumps(best[1], default=str)):
+            break
+        best = nxt[1]
+    return best
